@@ -362,7 +362,15 @@ class ResourceInterrupted(ResourceConstraint):
                 if is_interruptible:
                     # add assertions for task duration based on the total count of overlapped periods
                     total_overlap = z3.Sum(*overlaps)
-                    conds.append(task._duration >= task.min_duration + total_overlap)
+                    min_duration_cond = (
+                        task._duration >= task.min_duration + total_overlap
+                    )
+                    if task.optional:
+                        # the duration of a task that is not scheduled is 0
+                        min_duration_cond = z3.Implies(
+                            task._scheduled, min_duration_cond
+                        )
+                    conds.append(min_duration_cond)
                     if task.max_duration is not None:
                         conds.append(
                             task._duration <= task.max_duration + total_overlap
@@ -517,7 +525,15 @@ class ResourcePeriodicallyInterrupted(ResourceConstraint):
                 if is_interruptible:
                     # add assertions for task duration based on the total count of overlapped periods
                     total_overlap = z3.Sum(*overlaps)
-                    conds.append(task._duration >= task.min_duration + total_overlap)
+                    min_duration_cond = (
+                        task._duration >= task.min_duration + total_overlap
+                    )
+                    if task.optional:
+                        # the duration of a task that is not scheduled is 0
+                        min_duration_cond = z3.Implies(
+                            task._scheduled, min_duration_cond
+                        )
+                    conds.append(min_duration_cond)
                     if task.max_duration is not None:
                         conds.append(
                             task._duration <= task.max_duration + total_overlap
